@@ -152,6 +152,26 @@ func (c *FakeConsul) SessionExpires(id string) (time.Time, bool) {
 	return time.Time{}, false
 }
 
+// Steal makes a foreign session the holder of key (an operator deleted the key and another node acquired it, or a
+// node of another deployment shares the key): truthful answers about the key change accordingly.
+func (c *FakeConsul) Steal(key string) string {
+	c.mu.Lock()
+	defer c.mu.Unlock()
+	c.seq++
+	id := fmt.Sprintf("5e55-%04d-foreign", c.seq)
+	c.sessions[id] = &consulSession{ID: id, Behavior: "delete", TTL: time.Hour, Expires: time.Now().Add(time.Hour), Creator: "foreign"}
+	c.index++
+	pr := c.kv[key]
+	if pr == nil {
+		pr = &consulPair{CreateIndex: c.index}
+		c.kv[key] = pr
+	}
+	pr.Session, pr.ModifyIndex = id, c.index
+	pr.LockIndex++
+	c.logf("key %s taken over by foreign session %s", key, id)
+	return id
+}
+
 // Invalidate destroys a session from outside (operator action, node health check failing).
 func (c *FakeConsul) Invalidate(id string) {
 	c.mu.Lock()
